@@ -25,6 +25,9 @@ pub struct PlanSpec {
     pub count: u8,
     pub after: bool,
     pub second: Option<(u16, bool)>,
+    /// 0 = any write/fsync, 1 = record (data) writes only, 2 = journal writes, 3 = fsyncs, 4 = metadata writes
+    #[serde(default)]
+    pub site: u8,
 }
 
 #[derive(Clone, Debug, Serialize, Deserialize)]
@@ -39,8 +42,9 @@ fn plan_strategy() -> BoxedStrategy<PlanSpec> {
         prop_oneof![5 => Just(1u8), 2 => Just(2u8), 3 => Just(3u8), 1 => Just(7u8), 2 => Just(0u8)],
         any::<bool>(),
         proptest::option::weighted(0.3, (any::<u16>(), any::<bool>())),
+        prop_oneof![5 => Just(0u8), 2 => Just(1u8), 1 => Just(2u8), 1 => Just(3u8), 1 => Just(4u8)],
     )
-        .prop_map(|(k, count, after, second)| PlanSpec { k, count, after, second })
+        .prop_map(|(k, count, after, second, site)| PlanSpec { k, count, after, second: if site == 0 { second } else { None }, site })
         .boxed()
 }
 
@@ -85,7 +89,7 @@ fn burst_strategy() -> BoxedStrategy<FaultCase> {
                 ops.push(Op::Insert { k: crate::ops::KeyRef::Idx(k), v: ValSpec { len: LenClass::Small(l), kind: ValKind::Stamp }, ts: TsSpec::Auto, bytes: false });
             }
             ops.push(Op::Flush);
-            let plans = plans.into_iter().map(|(k, count, after)| PlanSpec { k, count, after, second: None }).collect();
+            let plans = plans.into_iter().map(|(k, count, after)| PlanSpec { k, count, after, second: None, site: 0 }).collect();
             FaultCase { case: Case { cfg, keys, t0_offset, ops }, plans }
         })
         .boxed()
@@ -172,7 +176,8 @@ pub fn run_with_plan(case: &Case, plan: Option<&PlanSpec>, n_estimate: usize, no
     let calls_at_open = dev.lock().unwrap().io_calls;
     if let Some(p) = plan {
         let span = n_estimate.saturating_sub(calls_at_open).max(4);
-        let from = calls_at_open + ((p.k as usize * span) >> 16);
+        // with a site filter the index counts calls at that site only (about a quarter of all calls)
+        let from = if p.site == 0 { calls_at_open + ((p.k as usize * span) >> 16) } else { (p.k as usize * (span / 4).max(2)) >> 16 };
         let second = p.second.map(|(k2, a2)| (calls_at_open + ((k2 as usize * span) >> 16), if a2 { FaultMode::After } else { FaultMode::Before }));
         dev.lock().unwrap().plan = Some(FaultPlan {
             from,
@@ -180,6 +185,8 @@ pub fn run_with_plan(case: &Case, plan: Option<&PlanSpec>, n_estimate: usize, no
             mode: if p.after { FaultMode::After } else { FaultMode::Before },
             errno: libc::EIO,
             second,
+            period: 0,
+            site: match p.site { 1 => Some("data-write"), 2 => Some("journal-write"), 3 => Some("fsync"), 4 => Some("metadata-write"), _ => None },
         });
     }
     let snapshot_run = |dev: &trace::DeviceRef, hist: &BTreeMap<Vec<u8>, Vec<Hist>>, now: u64| -> WorkloadRun {
@@ -252,7 +259,9 @@ pub fn run_with_plan(case: &Case, plan: Option<&PlanSpec>, n_estimate: usize, no
             Err(e) => {
                 trace::mark(&dev, Mark::FlushErr { step });
                 let kind = model::classify(&e);
-                if kind == model::ErrKind::Indeterminate || runner.poisoned {
+                // a poisoned device answers Indeterminate - or OutOfSpace, when the quarantined
+                // allocations of the outage leave no room and the batch fails before any I/O
+                if kind == model::ErrKind::Indeterminate || runner.poisoned || (kind == model::ErrKind::OutOfSpace && notes.injected > 0) {
                     // indeterminate failure: the file must be reopened (copy = new inode)
                     notes.indeterminate = true;
                     let run = snapshot_run(&dev, &hist, runner.model.now);
@@ -380,7 +389,8 @@ pub fn run(tier: Tier, seed: u64, replay: Option<&str>) -> i32 {
         }
         r.map_err(|(sig, msg)| format!("[{sig}] {msg}"))
     };
-    let found = run_lanes(case_strat(tier), tier.pick(520, 6000), 60, seed, env::threads(), check);
+    let scale: u32 = std::env::var("FXV_C09_SCALE").ok().and_then(|s| s.parse().ok()).unwrap_or(100);
+    let found = run_lanes(case_strat(tier), tier.pick(520, 6000) * scale / 100, 60, seed, env::threads(), check);
     env::wait_reaper();
     let mut ev = Evidence::new(
         "C09",
